@@ -157,7 +157,7 @@ Definition pred_of (id : list Z) : option (val -> res val) :=
   let cmp (k : Z) := fun x => match x with VInt z => Ok (VInt (b2z (Z.ltb z k))) | _ => Err E_UNMODELLED end in
   if is "lt10" then Some (cmp 10) else
   if is "lt0" then Some (cmp 0) else
-  if is "lt100" then Some (cmp 100) else
+  if is "lt30" then Some (cmp 30) else
   if is "never" then Some (fun _ => Ok (VInt 0)) else
   if is "short" then Some (fun x => bindr (v_size x) (fun n => match n with VInt z => Ok (VInt (b2z (Z.ltb z 4))) | _ => Err E_UNMODELLED end)) else
   None.
